@@ -123,13 +123,25 @@ def run(model, rep):
     if len(hits) != 3:
         raise AnalysisError('positive control: %d of 3 planted stores to external identifier fields reported' % len(hits))
     rep.ok('C04.OWN1', 'synthetic control', 'control module with stores to Attribute.attr, keyword.arg, alias.name', 'all 3 planted stores reported', key='C04|control', trivial=True)
-    pins(model, rep)
-    arg(model, rep)
-    scope(model, rep)
-    from . import rename_e2e
+    # ---- end to end: the real minify() on probe modules, judged against the interpreter's own scoping (symtable)
+    from . import rename_e2e, hoist_e2e
     rep.rule('C04.E2E', 'renaming end to end on probe modules: names no function scope binds, attributes, keyword names, imported names, preserved names keep their spelling; module-level additions carry the underscore')
     rename_e2e.run(model, rep, 'C04.E2E')
-    glob(model, rep)
+    rep.rule('C04.KEEP', 'end to end, both renaming options on: class attributes, system names, names used but never bound, roots of dotted imports, lambda parameters, super keep their spelling')
+    keep = {n: why for (_sc, n), (pin, _res, why) in PIN_EXPECT.items() if pin and n not in ('print', 'object')}
+    rename_e2e.keep_names(model, rep, 'C04.KEEP', 'pin probe', PIN_PROBE, set(keep), keep)
+    rep.floor('C04.KEEP', 15)
+    rep.rule('C04.SIG', 'end to end: every function kind x signature shape - parameters callers can pass by keyword keep their spelling in the signature')
+    rename_e2e.signatures(model, rep, 'C04.SIG', ARG_KINDS, ARG_SIGS)
+    rep.floor('C04.SIG', 40)
+    rep.rule('C04.ADD', 'end to end: names the hoister adds at module level start with an underscore (de-hoisting oracle)')
+    hoist_e2e.run(model, rep, 'C04.ADD')
+    # ---- white-box rules: written against internal functions of the renamer (forced renames, synthetic scope worlds); not evaluated when those
+    # internals do not exist under their names - the end-to-end rules above decide the behaviour
+    rep.optional(['C04.PIN'], ['C04.KEEP', 'C04.E2E'], lambda: pins(model, rep))
+    rep.optional(['C04.ARG'], ['C04.SIG'], lambda: arg(model, rep))
+    rep.optional(['C04.SCOPE'], ['C04.E2E'], lambda: scope(model, rep))
+    rep.optional(['C04.GLOB'], ['C04.E2E', 'C04.ADD'], lambda: glob(model, rep))
 
 
 def own(model, rep, control):
@@ -473,7 +485,7 @@ def rename_enum(model, rep):
                     n_cells += 1
                     label = '%s.rename on a %s%s reference%s' % (bq.split('.')[-1], c, ' (%s)' % variant if variant else '', '' if inplace is None else ', in-place=%s' % inplace)
                     if len(res) != 1 or res[0][0][0] not in ('return', 'raise'):
-                        raise AnalysisError('UNDECIDED: %s -> %s' % (label, [(r[0], r[2][:2]) for r in res][:3]))
+                        model.undecided(['arg_rename_in_place', 'insert'], 'UNDECIDED: %s -> %s' % (label, [(r[0], r[2][:2]) for r in res][:3]))
                     if res[0][0][0] == 'raise':
                         continue   # a reference kind the renamer refuses: nothing is renamed
                     for (f, q) in id_by_class[c]:
